@@ -83,11 +83,18 @@ class _Runner(_Processor):
             {self.cancel_event_task, process_task},
             return_when=asyncio.FIRST_COMPLETED,
         )
-        if self.cancel_event.is_set():
-            process_task.cancel()
-            await self._conn.message_broker.reject(key)
-            return
-        await process_task
+        try:
+            if self.cancel_event.is_set() and not process_task.done():
+                process_task.cancel()
+                # a report to the broker which has been started runs to its end
+                await asyncio.wait({process_task})
+                if key.id_ not in self._disposing:
+                    # nothing has disposed of the message: give it back
+                    await self._conn.message_broker.reject(key)
+                return
+            await process_task
+        finally:
+            self._disposing.discard(key.id_)
 
     async def _run_consumer(
         self,
